@@ -111,6 +111,7 @@ class C13(Monitor):
         self.early = {}       # vp id of an early resubmit -> info
         self.checked_epochs = set()
         self.cmds = {}        # vp id of every resubmit-jobs command -> captured pre-state
+        self.pending = {}     # spawned resubmit-jobs commands that have not read the cluster state yet
 
     # ---------------------------------------------------------------- helpers
     def _info_for_new_epoch(self, sub):
@@ -175,10 +176,17 @@ class C13(Monitor):
             if len(sub.launches_in_epoch(n)) > 1:
                 self.bad("rerun_twice", "a job was rerun more than once by one resubmission", f"{n} in epoch {sub.epoch}")
         elif kind == "spawn" and d.get("role") == "resubmit-jobs":
-            vp = w.vprocs[vpid]
+            self.pending[vpid] = w.vprocs[vpid]
+        elif kind == "lock_acquire" and vpid in self.pending and d.get("path", "").endswith("/cluster_config.json.lock"):
+            # the command decides on the state it reads under its first hold of the cluster lock (not on
+            # the state at the moment the user typed it: it may have waited for the lock meanwhile)
+            vp = self.pending.pop(vpid)
             sub = self.ctx.sub_for_abs(w.output)
-            lo = sub.last_obs
-            complete = bool(lo and lo.get("cfg") and lo["cfg"].get("is_complete"))
+            try:
+                cfg_now = state.read_json(os.path.join(sub.out, "cluster_config.json")) or {}
+            except state.Unparsable:
+                return
+            complete = bool(cfg_now.get("is_complete"))
             pre = {"rj": None, "rows": [], "events_dir": os.path.isdir(os.path.join(sub.out, "events"))}
             try:
                 pre["rj"] = state.read_json(os.path.join(sub.out, "results.json"))
@@ -446,12 +454,32 @@ def gen_resubmit_limits(ch, prof):
     return sc
 
 
+def gen_resubmit_cancel(ch, prof):
+    """C10 in full-world runs around resubmission: the user changes their mind and types cancel-jobs
+    right after resubmit-jobs (same login host), i.e. while resubmit-jobs holds the submitter role on a
+    submission that is still marked complete; a second user does the same from another login host."""
+    sc = gen_resubmit(ch, prof)
+    g = Gen(ch)
+    u = {"cmd": "cancel-jobs", "flags": [], "tag": "cancel_after_resubmit",
+         "after": {"kind": "user", "tag": "resubmit", "n": g.pick([1, 1, 2])},
+         "delay": g.pick([0.0, 0.0, 0.0, 0.01, 0.05, 0.5]), "host": g.pick([None, None, None, "login2"])}
+    sc["user"] = [x for x in sc.get("user", []) if x.get("tag") != "cancel"] + [u]
+    sc.pop("cancel_first_epoch", None)
+    sc["env"]["op_lat"] = g.pick([0.0, 0.02, 0.02, 0.5])
+    return sc
+
+
+profiles.profile("resubmit_cancel", mode="hpc", fault_free=True, no_liveness=True, kind="world", gen=gen_resubmit_cancel,
+                 extra_monitors=_extra, driver_cls=ResubmitDriver, max_jobs=6, p_reports=0.2, p_fail=0.45, max_steps=60000)
+profiles.PROFILE_PROPS["resubmit_cancel"] = ["C10"]
+profiles.CHECKS["C10"]["profiles"] = [("comp_cluster", 0.7), ("clean_hpc", 0.15), ("resubmit_cancel", 0.15)]
 profiles.profile("resubmit_limits", mode="hpc", fault_free=True, no_liveness=True, kind="world", gen=gen_resubmit_limits,
                  extra_monitors=_extra, driver_cls=ResubmitDriver, max_jobs=8, min_jobs=3, p_reports=0.2, p_fail=0.45,
                  max_steps=60000)
 profiles.PROFILE_PROPS["resubmit_limits"] = ["C06"]
-profiles.CHECKS["C06"]["profiles"] = [("clean_hpc", 0.45), ("clean_local", 0.2), ("resubmit", 0.1), ("resubmit_limits", 0.25)]
-profiles.RULES["C06"] = profiles.RULES["C06"].replace("as C01;", "as C01, plus resubmissions issued while old batches are still queued or running;")
+profiles.CHECKS["C06"]["profiles"] = [("clean_hpc", 0.4), ("clean_local", 0.15), ("resubmit", 0.1), ("resubmit_limits", 0.2),
+                                      ("flaky_scheduler", 0.15)]
+profiles.RULES["C06"] = profiles.RULES["C06"].replace("as C01;", "as C01, plus resubmissions issued while old batches are still queued or running, plus rounds whose status query or submission fails (squeue / sbatch faults);")
 profiles.RULES["C02"] = profiles.RULES["C02"].replace("HPC and local mode;", "HPC and local mode, plus resubmission epochs (blockers that are rerun must have a new outcome);")
 profiles.RULES["C09"] = profiles.RULES["C09"].replace("as C01;", "as C01, plus cancel and resubmit histories;")
 
